@@ -145,6 +145,17 @@ var c04 = gen.Register(&gen.Check[caseC04]{
 			if !bytes.Equal(r.Encode(), want) {
 				return gen.Fail(rt.name+"/value", "%s re-encodes to %x, want %x", rt.name, r.Encode(), want)
 			}
+			// the bytes travelled through a buffer the caller re-uses afterwards: the decoded element keeps its value
+			buf := append([]byte(nil), rt.data...)
+			r2 := secp256k1.Base().Double()
+			if derr := r2.Decode(buf); derr == nil {
+				for i := range buf {
+					buf[i] = ^buf[i]
+				}
+				if got := r2.Encode(); !bytes.Equal(got, want) || r2.Equal(e) != 1 {
+					return gen.Fail(rt.name+"/keeps-input-slice", "%s: after the caller overwrote the buffer it had decoded from, the element encodes to %x, want %x", rt.name, got, want)
+				}
+			}
 		}
 		// the generic serialisers that pick up encoding.BinaryMarshaler / BinaryUnmarshaler (encoding/gob; a value inside another
 		// struct) must round-trip as well
